@@ -156,7 +156,7 @@ _add(
          "twin is compared bit-for-bit. One evaluation = one step or one delayed query; distinct = (synapse, dt, "
          "delay, tolerance, interpolation, query class, overbound setting, train, inplace, batch) abstractions.",
     required=["steps_checked", "queries_checked", "twin_comparisons", "queries.in", "queries.beyond", "queries.negative",
-              "queries.limit", "queries.band", "queries.snap", "clears", "component_reads_checked"],
+              "queries.limit", "queries.band", "queries.snap", "clears", "component_reads_checked", "synapses_redelayed_through_the_setter"],
     floor={"quick": 300, "thorough": 800},
     text="Held on every spike train and selector explored: the real synapses (float64) are stepped on generated trains, "
          "the reported current is compared with the closed-form impulse-response sum over the recorded inputs, delayed "
